@@ -95,7 +95,7 @@ def _replay_tiles(r):
                 f.write(">c\n%s\n" % ("GA" * (W * n_tiles))[:W * n_tiles])
             df = pandas.DataFrame([("c", r["start"], r["end"])], columns=["chrom", "start", "end"])
             try:
-                res = match.extract_matching_loci(df, fa, in_window=W, out_window=W, gc_bin_width=0.5, random_state=0, n_jobs=1)
+                res = match.extract_matching_loci(df, fa, in_window=W, out_window=r.get("out_window", W), gc_bin_width=0.5, random_state=0, n_jobs=1)
             except Exception as e:
                 return False, "raised %s" % e
             for chrom, s, e in res.values[:, :3]:
@@ -104,10 +104,79 @@ def _replay_tiles(r):
             return False, "ok"
         finally:
             shutil.rmtree(d, ignore_errors=True)
+    if r["kind"] == "overmask":
+        return _replay_overmask(r)
+    if r["kind"] == "signalwin":
+        return _replay_signal(r)
     if r["kind"] == "select":
         # end-to-end: every returned locus must be a distinct aligned tile of its bin (checked by the match replay)
         return replay({"kind": "match", "bg": [2, 1, 3], "loci": [2, 1, 3]})
     raise KeyError(r["kind"])
+
+
+def _replay_overmask(r):
+    """two chromosomes with identical tiles; loci only on c: every tile of c2 stays eligible and must be usable"""
+    import pandas
+    from tangermeme import match
+    W = max(2, r["width"])
+    d = tempfile.mkdtemp(prefix="c17_")
+    try:
+        fa = os.path.join(d, "g.fa")
+        n_t = 6
+        seq = ("G" * (W // 2) + "A" * (W - W // 2)) * n_t
+        with open(fa, "w") as f:
+            f.write(">c\n%s\n>c2\n%s\n" % (seq, seq))
+        rows = [("c", k * W, (k + 1) * W) for k in range(n_t - 1)]
+        df = pandas.DataFrame(rows, columns=["chrom", "start", "end"])
+        try:
+            res = match.extract_matching_loci(df, fa, in_window=W, out_window=W, gc_bin_width=0.5, random_state=0, n_jobs=1)
+        except Exception as e:
+            return True, "raised %s: %s" % (type(e).__name__, e)
+        # eligible background: tile n_t-1 of c (one), all n_t tiles of c2  => min(5 input, 7 eligible) = 5 must be returned
+        if len(res) < min(len(rows), n_t + 1):
+            return True, "%d loci returned although %d input loci and %d eligible background tiles exist (tiles of c2 wrongly masked)" % (len(res), len(rows), n_t + 1)
+        return False, "ok"
+    finally:
+        shutil.rmtree(d, ignore_errors=True)
+
+
+def _replay_signal(r):
+    """bigwig whose signal sits in the flanks of the input loci: the robust minimum must only see the central out_window"""
+    import pandas
+    import pyBigWig
+    from tangermeme import match
+    inw, ow = 20, 10
+    d = tempfile.mkdtemp(prefix="c17_")
+    try:
+        fa, bwp = os.path.join(d, "g.fa"), os.path.join(d, "s.bw")
+        n_t = 12
+        seq = ("GA" * (inw // 2)) * n_t
+        with open(fa, "w") as f:
+            f.write(">c\n%s\n" % seq)
+        import numpy
+        vals = numpy.zeros(len(seq), dtype=numpy.float64)
+        loci = [(0, inw), (inw, 2 * inw)]
+        for s, e in loci:
+            vals[s:e] = 5.0                 # flanks carry a lot of signal
+            vals[s + 5:s + 15] = 1.0        # central out_window sums to 10
+        for k in range(4, n_t):
+            vals[k * inw + 5:k * inw + 15] = 0.7 + 0.1 * (k % 2)      # background tiles: central sum 7..8, above 0.5 * 10
+        bw = pyBigWig.open(bwp, "w")
+        bw.addHeader([("c", len(seq))])
+        bw.addEntries("c", 0, values=[float(v) for v in vals], span=1, step=1)
+        bw.close()
+        df = pandas.DataFrame([("c", s, e) for s, e in loci], columns=["chrom", "start", "end"])
+        try:
+            res = match.extract_matching_loci(df, fa, bigwig=bwp, in_window=inw, out_window=ow, gc_bin_width=0.5, signal_beta=0.5, random_state=0, n_jobs=1)
+        except Exception as e:
+            return True, "raised %s: %s" % (type(e).__name__, e)
+        for chrom, s, e in res.values[:, :3]:
+            tot = vals[s + 5:s + 15].sum()
+            if tot > 0.5 * 10 + 1e-9:
+                return True, "returned tile [%d, %d) has central signal %.3g above signal_beta * robust minimum = 5" % (s, e, tot)
+        return False, "ok"
+    finally:
+        shutil.rmtree(d, ignore_errors=True)
 
 
 # ------------------------------------------------------------------ symbolic harness
@@ -211,7 +280,7 @@ def worker(cfg):
 
     elif kind == "mask":
         block, info = ld.slice_function("match", "extract_matching_loci", _is_assign_to("mask"), _is_for("chrom, values", "mask.items()") if False else (lambda st, text: isinstance(st, ast.For) and "mask.items()" in text.split("\n")[0]),
-                                        ["loci", "chroms", "in_window"], ["mask"])
+                                        ["loci", "chroms", "in_window", "out_window"], ["mask"])
         out["functions"].append(info)
         W = cfg["width"]
 
@@ -231,14 +300,25 @@ def worker(cfg):
             ctx.assume(s_and(s >= 0, s < e, e <= cfg["max_coord"]))
             t = core.Int("tile")
             ctx.assume(s_and(t >= 0, t <= cfg["max_coord"] // W + 1))
-            (mask,) = block(Loci([Row("c", s, e), Row("other", 0, 1)]), ["c"], W)
+            ow = core.Int("out_window")
+            ctx.assume(s_and(ow >= 1, ow <= 3 * W))
+            (mask,) = block(Loci([Row("c", s, e), Row("other", 0, 1)]), ["c", "c2"], W, ow)
             tiles = mask["c"]
             in_mask = s_or(*[t == v for v in tiles]) if tiles else False
             overlaps = s_and(t * W < e, (t + 1) * W > s)
             m = ctx.prove(s_or(in_mask, s_not(overlaps)), "a tile outside the mask does not touch the locus")
             if m is not None:
                 add("mask:tile-overlapping-input-not-masked", "a background tile overlapping an input locus is not in the exclusion mask",
-                    dict(cfg, start=core.model_value(m, s), end=core.model_value(m, e), tile=core.model_value(m, t), n_tiles=cfg["max_coord"] // W + 2))
+                    dict(cfg, start=core.model_value(m, s), end=core.model_value(m, e), tile=core.model_value(m, t), n_tiles=cfg["max_coord"] // W + 2,
+                         out_window=core.model_value(m, ow)))
+            # the mask must not exclude tiles that no input locus of that chromosome comes near (eligible background is not shrunk)
+            near = s_and(t >= s // W - 0, t <= e // W)
+            m = ctx.prove(s_or(s_not(in_mask), near), "masked tiles are within the tile range of the locus")
+            over2 = len(mask.get("c2", ())) > 0
+            if m is not None or over2:
+                mm = m if m is not None else (ctx.model() if ctx.check() == z3.sat else None)
+                add("mask:over-masking", "the exclusion mask covers tiles that no input locus of that chromosome touches (shrinks the eligible background)",
+                    dict(cfg, kind="overmask", start=core.model_value(mm, s), end=core.model_value(mm, e), width=W, out_window=core.model_value(mm, ow)))
             ok2 = "other" not in mask
             ctx.stats.obligations += 1
             ctx.stats.discharged += int(ok2)
@@ -246,6 +326,56 @@ def worker(cfg):
                 out["samples"].append({"cfg": cfg, "mask_on_path": sorted(int(v) for v in tiles)})
             return "returned"
         core.explore(body, stats=stats, max_paths=40000)
+
+    elif kind == "signal":
+        recorded = []
+
+        def fake_counts(bigwig, coords, num_regions=-1, buffer=False, verbose=False):
+            coords = list(coords)
+            recorded.append(coords)
+            return T.NDArray(np.array([core.Real("cnt%d" % i) for i in range(len(coords))], dtype=object), dtype="float64")
+
+        class Q:
+            def __init__(self, v):
+                self.v = v
+
+            def item(self):
+                return self.v
+        block, info = ld.slice_function("match", "extract_matching_loci", _is_assign_to("threshold"),
+                                        lambda st, text: isinstance(st, ast.Assign) and "_resize_coords_generator(coords, in_window)" in text,
+                                        ["coords", "bigwig", "in_window", "out_window", "signal_beta", "num_regions", "verbose"], ["threshold", "coords"],
+                                        extra_globals={"_counts_from_coords": fake_counts})
+        out["functions"].append(info)
+
+        def body(ctx):
+            del recorded[:]
+            inw, ow = core.Int("in_window"), core.Int("out_window")
+            ctx.assume(s_and(inw >= 1, ow >= 1, inw >= ow))
+            beta = core.Real("signal_beta")
+            rows = []
+            big = core.s_max(inw, ow)
+            for i in range(cfg["n"]):
+                mid = core.Int("mid%d" % i)
+                ctx.assume(mid >= 0)
+                rows.append(("c", mid - big // 2, mid + (big + 1) // 2))       # what the caller passes: loci resized to max(in, out)
+            ld.load("match").numpy.nanquantile = lambda a, q: Q(core.Real("robust_min"))
+            thr, coords = block(list(rows), "x.bw", inw, ow, beta, len(rows), False)
+            cl = [len(recorded) == 1 and len(recorded[0]) == len(rows)]
+            if cl[0]:
+                for (c0, a0, b0), (c1, a1, b1) in zip(rows, recorded[0]):
+                    mid = a0 + (b0 - a0) // 2
+                    cl.append(s_and(c0 == c1, b1 - a1 == ow, a1 == mid - ow // 2))       # counts are summed over the centred out_window
+            for (c0, a0, b0), (c1, a1, b1) in zip(rows, coords):
+                mid = a0 + (b0 - a0) // 2
+                cl.append(s_and(b1 - a1 == inw, a1 <= mid, mid <= b1))
+            m = ctx.prove(s_and(*cl), "input-locus signal is summed over the centred out_window; GC windows have in_window width")
+            if m is not None:
+                add("signal:threshold-window", "the robust-minimum signal of the input loci is not computed over their centred out_window", dict(cfg, kind="signalwin"))
+            m = ctx.prove(thr == core.Real("robust_min") * beta, "threshold = robust minimum * signal_beta")
+            if m is not None:
+                add("signal:threshold-value", "threshold is not signal_beta times the robust minimum", dict(cfg, kind="signalwin"))
+            return "returned"
+        core.explore(body, stats=stats)
 
     elif kind == "select":
         block, info = ld.slice_function("match", "extract_matching_loci", _is_assign_to("matched_loci"), lambda st, text: isinstance(st, ast.For) and "range(n)" in text.split("\n")[0],
@@ -279,6 +409,7 @@ def configs(tier):
     for W in ((1, 3) if q else (1, 2, 3, 5)):
         cf.append(dict(kind="mask", width=W, max_coord=3 * W + 1))
     cf.append(dict(kind="select", width=4))
+    cf.append(dict(kind="signal", n=2))
     return cf
 
 
